@@ -683,3 +683,31 @@ SPECS['C20'] = dict(
           'for the parent and is disposed of after the parent\'s last proxy', timeout=(300, 1200)),
        twin('proxies-in-a-forked-child', 'harness.c20', 'h_fork_child_twin', 'a child that wrote through the inherited proxy and exited with 0 exists')],
 )
+
+
+# C15 stays NOT APPLICABLE (see NOT_APPLICABLE above): what follows is a supplementary bounded test that is NOT claimed in MANIFEST.json -
+# below the choice of scenario every run is concrete (ctypes/mmap are C), i.e. it enumerates concrete runs, which this task's technique
+# explicitly does not count as deciding a property.  It is kept because it is cheap and catches slips in sharedctypes.py (initialisation,
+# sizes, lock bracketing of the generated accessors); its report goes to supplementary/, not evidence/.
+SPECS['C15'] = dict(
+    claimed=False,
+    level='other',
+    technique='NOT a solver-based decision: CrossHair only enumerates the scenario choices, every run below a choice is concrete',
+    explanation='Supplementary, unclaimed: bounded histories of RawValue/RawArray/Value/Array creations and releases over the real heap (initial '
+                'value incl. zero-fill of reused blocks, size = type x length, no storage shared between live objects, a write never changes '
+                'another object) and every accessor of the synchronised wrappers (one acquire/release of the object\'s own lock around the access, '
+                'also when it raises; same result and state as a plain ctypes object; default lock re-entrant and per object).',
+    functions=['billiard.sharedctypes.RawValue', 'RawArray', 'Value', 'Array', '_new_value', 'rebuild_ctype', 'synchronized', 'make_property (generated code)',
+               'Synchronized', 'SynchronizedArray', 'SynchronizedString', 'billiard.heap.BufferWrapper'],
+    bounds={'quick': 'histories of 4 steps over 8 creation recipes + 2 releases; 3 wrapper kinds x 6 accesses x 4 indices x 10 values', 'thorough': '5 steps'},
+    outside=['a write made in a child process is visible in the parent and vice versa (mmap/fork)', 'no lost update across processes under the lock (kernel semaphore)',
+             'Structure types'],
+    assumptions=['a private Heap per run'],
+    trusted_base=TRUST + ['ctypes', 'mmap'],
+    obligations=[
+    ] + parts(ch('objects', 'harness.c15', 'h_objects', 'initial value / zero fill, size, isolation over creation-release histories (split on the first creation)', timeout=(300, 1500)), 8)
+      + parts(twin('objects', 'harness.c15', 'h_objects_twin', 'a history in which a released block is handed out again exists'), 8) + [
+        ch('wrapper-locking', 'harness.c15', 'h_locking', 'accessors bracketed by the object\'s own lock, results equal a plain ctypes object', timeout=(300, 1500), nontrivial_witness=True),
+        ch('default-lock', 'harness.c15', 'h_default_lock', 'lock=True/None: own re-entrant lock; lock=False: raw object; a non-lock is refused', timeout=(120, 600), nontrivial_witness=True),
+    ],
+)
